@@ -25,7 +25,7 @@ LEVEL = 'fault_enumeration'
 RULE = ('one case = (writer in {OutputToJSON, OutputToFile(pickle), atomic_write}, record with '
         '1-3 phases, destination absent or holding an old complete record, filename pattern '
         'kind, fault kind and position k): every k for serializer-raises-after-k-chunks and '
-        'k-th-write-raises, close raises, move/rename raises, real mid-stream serializer '
+        'k-th-write-raises, close raises (for atomic_write: the final flush inside close), move/rename raises, real mid-stream serializer '
         'failure, no fault; and (thorough, plus a few in quick) the writer running in a child '
         'process that is SIGKILLed by strace at its N-th file-system system call for every N; '
         'distinct = distinct case; non-trivial = a fault fired (or a success was compared '
@@ -40,9 +40,9 @@ REQUIRED_COUNTERS = ['cases', 'faults_fired', 'destinations_inspected',
 EXHAUSTIVE = {'quick': True, 'thorough': True}
 PLAN = {
     'quick': {'workers': 16, 'budget_s': 60, 'sampled_per_worker': 0,
-              'wall_limit_s': 900, 'kill_variants': 2},
+              'wall_limit_s': 900, 'kill_variants': 3},
     'thorough': {'workers': 16, 'budget_s': 900, 'sampled_per_worker': 0,
-                 'wall_limit_s': 7200, 'kill_variants': 12},
+                 'wall_limit_s': 7200, 'kill_variants': 99},
 }
 OLD = b'{"old": "complete previous record", "marker": "OLD-CONTENT"}'
 SYSCALLS = 'openat,open,creat,write,pwrite64,close,rename,renameat,renameat2,unlink,unlinkat,fsync,fdatasync,link,linkat,sendfile,copy_file_range,ftruncate'
@@ -116,15 +116,18 @@ def enumerated(tier):
     for sync in (False, True):
       yield {'w': 'atomic_write', 'dest': dest, 'fault': ['none'], 'sync': sync}
       yield {'w': 'atomic_write', 'dest': dest, 'fault': ['rename'], 'sync': sync}
+      yield {'w': 'atomic_write', 'dest': dest, 'fault': ['closeflush'], 'sync': sync}
       for k in range(0, 6):
         yield {'w': 'atomic_write', 'dest': dest, 'fault': ['body', k],
                'sync': sync}
   nv = PLAN[tier]['kill_variants']
-  variants = []
-  for writer in ('json', 'pickle', 'atomic_write'):
+  variants = [('json', 'old', 1), ('atomic_write_nosync', 'old', 1),
+              ('pickle', 'old', 1)]
+  for writer in ('json', 'pickle', 'atomic_write', 'atomic_write_nosync'):
     for dest in ('old', 'absent'):
-      for nph in (1, 3):
-        variants.append((writer, dest, nph))
+      for nph in ((1, 3) if writer in ('json', 'pickle') else (1,)):
+        if (writer, dest, nph) not in variants:
+          variants.append((writer, dest, nph))
   for writer, dest, nph in variants[:nv]:
     for pos in range(0, 30):
       yield {'w': writer, 'n': nph, 'dest': dest, 'fault': ['kill', pos]}
@@ -343,8 +346,43 @@ def run_atomic_write(case):
         raise Injected('injected rename failure')
       return os.rename(a, b)
 
+  class LateFlushFile:
+    """What `open(name, 'w')` gives atomic_write: text is buffered; the final
+    flush inside close() fails (ENOSPC / EFBIG / EIO) for fault closeflush."""
+
+    def __init__(self, name, mode):
+      self.f = open(name, mode)
+      self.buf = []
+
+    def write(self, text):
+      self.buf.append(text)
+      return len(text)
+
+    def flush(self):
+      if fault[0] == 'closeflush':
+        fired.append('closeflush')
+        self.buf = []
+        raise OSError(28, 'injected: no space left on device')
+      self.f.write(''.join(self.buf))
+      self.buf = []
+      self.f.flush()
+
+    def fileno(self):
+      return self.f.fileno()
+
+    def __enter__(self):
+      return self
+
+    def __exit__(self, *exc):
+      try:
+        self.flush()
+      finally:
+        self.f.close()
+      return False
+
   real_os = aw.os
   aw.os = OsShim()
+  aw.open = LateFlushFile
   try:
     try:
       with aw.atomic_write(dest, filesync=case['sync']) as f:
@@ -358,6 +396,7 @@ def run_atomic_write(case):
       raised = type(e).__name__
   finally:
     aw.os = real_os
+    del aw.open
     tempfile.tempdir = old_tmp
   verdict, detail = classify_dest(dest, case['dest'], new_bytes)
   ctx = {'writer': 'atomic_write', 'fault': fault, 'dest_before': case['dest'],
@@ -399,13 +438,15 @@ def wait_gate():
   sys.stdout.write('READY %d\n' % os.getpid()); sys.stdout.flush()
   while not os.path.exists(gate):
     time.sleep(0.002)
-if writer == 'atomic_write':
+if writer.startswith('atomic_write'):
   from openhtf.util import atomic_write as aw
   wait_gate()
-  with aw.atomic_write(dest, filesync=True) as f:
+  sync = writer == 'atomic_write'
+  with aw.atomic_write(dest, filesync=sync) as f:
     for i in range(5):
       f.write('line %d of the new content\n' % i)
-      f.flush()
+      if sync:
+        f.flush()     # nosync: the text stays in the user-space buffer
   print('DONE'); sys.exit(0)
 phases = []
 for i in range(int(nph)):
@@ -552,7 +593,7 @@ def run_kill(case):
       c['successes_compared'] = 1
 
     def new_ok(content):
-      if case['w'] == 'atomic_write':
+      if case['w'].startswith('atomic_write'):
         return content == ''.join('line %d of the new content\n' % i
                                   for i in range(5)).encode()
       try:
